@@ -7,9 +7,9 @@ import (
 	"encoding/json"
 	"flag"
 	"fmt"
+	"math/rand"
 	"net/http"
 	"os"
-	"math/rand"
 	"runtime"
 	"strings"
 	"sync"
@@ -38,6 +38,7 @@ type Scenario struct {
 	Faults    int   `json:"faults"`    // block requests answered with status 500 (seeded choice), failed heads are announced again
 	XCancel   bool  `json:"xcancel"`   // explicit syncs run under a context that is cancelled at a random point
 	Scoped    bool  `json:"scoped"`    // explicit syncs bring their own (scoped) block hook
+	LateReg   bool  `json:"latereg"`   // listeners may be registered after Close has started
 	Readers   bool  `json:"readers"`   // listeners are read by fast and slow readers during the run (otherwise: stalled, read at the end)
 	Seed      int64 `json:"seed"`
 	Patience  int   `json:"patience,omitempty"` // watchdog multiplier (confirmation run of a hang)
@@ -77,18 +78,18 @@ func (l *listener) read() {
 }
 
 type run struct {
-	sc        Scenario
-	s         *gate.Sched
-	pubs      []*chain.Pub
-	sub       *dagsync.Subscriber
-	dst       *lsys.Store
-	lst       []*listener
-	closed    bool
-	announced []int // last announced head per publisher
-	fmu       sync.Mutex
-	failed    map[[2]int]bool // (publisher, head) whose announce-triggered sync failed and that was not announced again yet
+	sc         Scenario
+	s          *gate.Sched
+	pubs       []*chain.Pub
+	sub        *dagsync.Subscriber
+	dst        *lsys.Store
+	lst        []*listener
+	closed     bool
+	announced  []int // last announced head per publisher
+	fmu        sync.Mutex
+	failed     map[[2]int]bool // (publisher, head) whose announce-triggered sync failed and that was not announced again yet
 	faultsLeft int
-	frng      *rand.Rand
+	frng       *rand.Rand
 }
 
 func (r *run) pnum(id peer.ID) int {
@@ -198,6 +199,15 @@ func Execute(sc Scenario, pubs []*chain.Pub) (log []gate.Event, key, detail stri
 	available := func() []envAction {
 		todo = todo[:0]
 		if r.closed {
+			// while Close is under way a listener may still be registered (it gets what is still delivered, or a closed
+			// channel once the distributor has gone)
+			inflight := false
+			for _, l := range r.lst {
+				inflight = inflight || !l.ready || l.cancelling
+			}
+			if regLeft > 0 && !inflight && sc.LateReg {
+				todo = append(todo, envAction{"reg", 0, 0})
+			}
 			return todo
 		}
 		if sc.Ads > 10 && regLeft > 0 { // long runs: the stalled listener is registered before anything is announced
@@ -276,7 +286,7 @@ func Execute(sc Scenario, pubs []*chain.Pub) (log []gate.Event, key, detail stri
 				continue
 			}
 			if blocked > 0 && !r.closed {
-				key, detail = "hang", "nothing is parked and nothing is left to do, but a sync is still waiting in a primitive of the library:\n" + stacks
+				key, detail = "hang", "nothing is parked and nothing is left to do, but a sync is still waiting in a primitive of the library:\n"+stacks
 			}
 			break
 		}
@@ -607,8 +617,9 @@ func Run(args []string) *rep.Report {
 			sc.Listeners, sc.Cancels = 2+(i/2)%2, i%2
 			sc.Readers = i%4 >= 2 // half of the runs: stalled readers only; the others mix fast, slow and stalled readers
 		case "close":
-			sc.Listeners, sc.Closers = 1, 1+i%3
+			sc.Listeners, sc.Closers = 1+(i/3)%2, 1+i%3
 			sc.Readers = i%2 == 1
+			sc.LateReg = true
 			sc.Explicit, sc.Separate = 1+(i/2)%2, true
 			sc.Pubs = 2 + i%2
 		}
